@@ -16,6 +16,13 @@
 (* their broadcast sockets; and exit sockets whose delayed removal (remove_exit_socket after a DESTROY or from     *)
 (* do_remove) is already scheduled when unload is requested.                                                      *)
 (*                                                                                                                *)
+(* Acquisition of the outside sockets (exit_socket.py TunnelExitSocket.enable / create_transports / close): an   *)
+(* exit socket opens its transports in a task of its own task manager, one attempt per address family; an        *)
+(* attempt takes loop iterations and the environment may refuse it (OSError: no IPv6 on the host, no descriptors  *)
+(* left) or the task may be cancelled while it waits (then no socket comes to exist). Every transport that came  *)
+(* to exist is recorded by its exit socket at once, so that close() - at a removal or at unload, after a failed  *)
+(* or cancelled opening job as well - releases it.                                                               *)
+(*                                                                                                                *)
 (* The switches describe deviations (the first three were found in the pinned tree); TRUE = repaired behaviour,   *)
 (* which is what the traces of the real code are validated against (UnloadTrace.tla).                             *)
 EXTENDS Naturals, FiniteSets, TLC
@@ -29,8 +36,13 @@ CONSTANTS Wirings,               \* subset of {"plain", "tunnel"}: socket endpoi
           MaxBoot,               \* bootstrapper initialisations / bootstrap sockets
           InitAwaited,           \* the task that starts a bootstrapper's initialize() awaits it (Community._bootstrap):
                                  \* cancelling the task cancels the initialisation; FALSE = left running in the background
-          UnloadRemovesPending   \* unload closes an exit socket also when a (delayed) removal of it is already scheduled;
+          UnloadRemovesPending,  \* unload closes an exit socket also when a (delayed) removal of it is already scheduled;
                                  \* FALSE = "removal already pending" makes unload's own removal a no-op
+          MaxTry,                \* socket open attempts one task may have in flight
+          MaxXTask,              \* task ids 1..MaxXTask may be given to tasks of exit sockets (model checking: the ids are
+                                 \* interchangeable, so one is enough to have an exit socket's task next to another task)
+          StoreAtOpen            \* an exit socket records each transport as soon as it exists; FALSE = it records what its
+                                 \* opening job opened only when that job has ended without a failure or a cancellation
 
 VARIABLES wiring, kind,
           glob,      \* _listeners of the socket endpoint (subset of {"ov", "crypto"})
@@ -47,10 +59,16 @@ VARIABLES wiring, kind,
           initing,   \* bootstrapper initialisations in flight (coroutines started with ensure_future by a task)
           bdying,    \* ... that were cancelled together with the task awaiting them and have not ended yet
           held,      \* <<b, t>>: initialisation b is awaited by task t of the overlay
-          bsocks     \* open sockets of the overlay's bootstrappers (UDPBroadcastBootstrapper)
+          bsocks,    \* open sockets of the overlay's bootstrappers (UDPBroadcastBootstrapper)
+          xtasks,    \* the tasks (of tasks \cup dying) that belong to the task manager of an exit socket
+          trying,    \* <<t, n>>: task t has n socket open attempts in flight (n > 0, at most one pair per task)
+          unstored,  \* <<s, t>>: open socket s was opened by task t and is not recorded by its exit socket (t = 0: the
+                     \* job that opened it is gone, it never will be); always empty with StoreAtOpen
+          tfailed    \* ~StoreAtOpen: tasks one of whose open attempts was refused
 BootVars == <<initing, bdying, held, bsocks>>
+OpenVars == <<xtasks, trying, unstored, tfailed>>
 vars == <<wiring, kind, glob, pfx, pl, link, phase, tmShut, tasks, dying, rcShut, caches, socks, rmPending, sub, lateAct,
-          initing, bdying, held, bsocks>>
+          initing, bdying, held, bsocks, xtasks, trying, unstored, tfailed>>
 
 TaskIds  == 1..MaxTasks
 CacheIds == 1..MaxCaches
@@ -79,6 +97,13 @@ Reach   == "ov" \in Targets \/ ("crypto" \in Targets /\ link)
 Alive   == Reach \/ tasks # {} \/ dying # {} \/ caches # {} \/ socks # {} \/ initing # {} \/ bsocks # {}
 MayAct  == phase # "unloaded" \/ Alive          \* while loaded the application may call into the overlay as well
 
+(* open attempts task t has in flight *)
+Tr(t)       == IF \E n \in 1..MaxTry : <<t, n>> \in trying THEN CHOOSE n \in 1..MaxTry : <<t, n>> \in trying ELSE 0
+SetTr(t, n) == {p \in trying : p[1] # t} \cup (IF n > 0 THEN {<<t, n>>} ELSE {})
+(* the open sockets an exit socket has on record: what its close() closes *)
+Unrecorded == {p[1] : p \in unstored}
+Recorded   == socks \ Unrecorded
+
 InitFor(w, k) ==
         /\ wiring = w /\ kind = k
         /\ LET t == IF k = "tunnel" THEN AfterTunnelInit(w) ELSE AfterCommunityInit(w)
@@ -87,6 +112,7 @@ InitFor(w, k) ==
         /\ phase = "loaded" /\ tmShut = FALSE /\ tasks = {} /\ dying = {} /\ rcShut = FALSE /\ caches = {}
         /\ socks = {} /\ rmPending = {} /\ sub = {} /\ lateAct = FALSE
         /\ initing = {} /\ bdying = {} /\ held = {} /\ bsocks = {}
+        /\ xtasks = {} /\ trying = {} /\ unstored = {} /\ tfailed = {}
 Init == \E w \in Wirings, k \in Kinds : InitFor(w, k)
 
 Act   == lateAct' = (lateAct \/ phase = "unloaded")
@@ -99,64 +125,94 @@ Keep1 == UNCHANGED <<wiring, kind, glob, pfx, pl, link, phase, sub>>
 Handler == /\ (Reach \/ phase = "unloading") /\ Act
            /\ UNCHANGED <<wiring, kind, glob, pfx, pl, link, phase, tmShut, tasks, dying, rcShut, caches, socks,
                           rmPending, sub>>
-           /\ UNCHANGED BootVars
+           /\ UNCHANGED BootVars /\ UNCHANGED OpenVars
 Send == /\ MayAct /\ Act
         /\ UNCHANGED <<wiring, kind, glob, pfx, pl, link, phase, tmShut, tasks, dying, rcShut, caches, socks,
                        rmPending, sub>>
-        /\ UNCHANGED BootVars
+        /\ UNCHANGED BootVars /\ UNCHANGED OpenVars
 (* register_task on the overlay ("ov"), its request cache ("cache") or one of its exit sockets ("sock"): a call may  *)
-(* come at any time; it is accepted only while that manager is not shut down (and may be refused for a name in use)  *)
+(* come at any time; it is accepted only while that manager is not shut down (and may be refused for a name in use). *)
+(* The exit sockets' managers are shut down when unload closes the exit sockets (U_Tunnels).                          *)
 Owners == {"ov", "cache", "sock"}
 Register(t, own, ok) ==
                    /\ t \notin tasks \cup dying
                    /\ ok => CASE own = "ov"    -> ~tmShut
                                [] own = "cache" -> kind # "basic" /\ ~rcShut
-                               [] own = "sock"  -> kind = "tunnel" /\ phase # "unloaded"
+                               [] own = "sock"  -> kind = "tunnel" /\ phase # "unloaded" /\ t <= MaxXTask
+                                                   /\ (RemovalAwaited => "tunnels" \notin sub)
                    /\ tasks' = IF ok THEN tasks \cup {t} ELSE tasks
+                   /\ xtasks' = IF ok /\ own = "sock" THEN xtasks \cup {t} ELSE xtasks
                    /\ Keep1 /\ UNCHANGED <<tmShut, dying, rcShut, caches, socks, rmPending, lateAct>>
-                   /\ UNCHANGED BootVars
+                   /\ UNCHANGED BootVars /\ UNCHANGED <<trying, unstored, tfailed>>
 TaskStep(t) == /\ t \in tasks \cup dying /\ Act
                /\ Keep1 /\ UNCHANGED <<tmShut, tasks, dying, rcShut, caches, socks, rmPending>>
-               /\ UNCHANGED BootVars
-(* a task that awaits an initialisation it started cannot end before that initialisation has ended *)
+               /\ UNCHANGED BootVars /\ UNCHANGED OpenVars
+(* a task that awaits an initialisation it started cannot end before that initialisation has ended; a task that    *)
+(* awaits the opening of a socket cannot end before that attempt has succeeded, was refused, or was abandoned      *)
+(* because the task is cancelled.                                                                                    *)
+(* ~StoreAtOpen: the sockets an opening job opened are recorded now, unless the job failed or was cancelled.        *)
 TaskEnd(t) == /\ t \in tasks \cup dying
               /\ \A b \in initing : <<b, t>> \notin held
+              /\ Tr(t) = 0
               /\ tasks' = tasks \ {t} /\ dying' = dying \ {t}
-              /\ Keep1 /\ UNCHANGED <<tmShut, rcShut, caches, socks, rmPending, lateAct>>
+              /\ xtasks' = xtasks \ {t} /\ tfailed' = tfailed \ {t}
+              /\ unstored' = IF t \in dying \/ t \in tfailed
+                             THEN {p \in unstored : p[2] # t} \cup {<<p[1], 0>> : p \in {q \in unstored : q[2] = t}}
+                             ELSE {p \in unstored : p[2] # t}
+              /\ Keep1 /\ UNCHANGED <<tmShut, rcShut, caches, socks, rmPending, lateAct, trying>>
               /\ UNCHANGED BootVars
 CacheAdd(c, ok) == /\ kind # "basic" /\ c \notin caches
                    /\ ok => ~rcShut
                    /\ caches' = IF ok THEN caches \cup {c} ELSE caches
                    /\ Keep1 /\ UNCHANGED <<tmShut, tasks, dying, rcShut, socks, rmPending, lateAct>>
-                   /\ UNCHANGED BootVars
+                   /\ UNCHANGED BootVars /\ UNCHANGED OpenVars
 CacheTimeout(c) == /\ c \in caches /\ Act
                    /\ caches' = caches \ {c}
                    /\ Keep1 /\ UNCHANGED <<tmShut, tasks, dying, rcShut, socks, rmPending>>
-                   /\ UNCHANGED BootVars
+                   /\ UNCHANGED BootVars /\ UNCHANGED OpenVars
 CachePop(c) == /\ c \in caches /\ MayAct
                /\ caches' = caches \ {c}
                /\ Keep1 /\ UNCHANGED <<tmShut, tasks, dying, rcShut, socks, rmPending, lateAct>>
-               /\ UNCHANGED BootVars
-(* an exit socket opens its outside transports when a data cell for it arrives *)
-SockOpen(s) == /\ Reach /\ kind = "tunnel" /\ s \notin socks /\ Act
-               /\ socks' = socks \cup {s}
-               /\ Keep1 /\ UNCHANGED <<tmShut, tasks, dying, rcShut, caches, rmPending>>
-               /\ UNCHANGED BootVars
+               /\ UNCHANGED BootVars /\ UNCHANGED OpenVars
+
+---------------------------------------------------------------------------
+(* An exit socket opens its outside transports when a data cell for it arrives: enable() registers a task with the  *)
+(* exit socket's task manager, and that task asks the loop for a datagram endpoint per address family.             *)
+(* SockTry: the request to the loop (create_datagram_endpoint called in a step of task t, or of a coroutine t       *)
+(* started and awaits). It is answered some loop iterations later: by SockOpen, by SockFail when the environment   *)
+(* refuses (OSError), or by SockFail when t was cancelled in between - the loop hands no socket to a cancelled     *)
+(* caller, it closes what it had half opened.                                                                      *)
+SockTry(t) == /\ kind = "tunnel" /\ t \in xtasks /\ t \in tasks /\ Tr(t) < MaxTry
+              /\ trying' = SetTr(t, Tr(t) + 1)
+              /\ Keep1 /\ UNCHANGED <<tmShut, tasks, dying, rcShut, caches, socks, rmPending, lateAct>>
+              /\ UNCHANGED BootVars /\ UNCHANGED <<xtasks, unstored, tfailed>>
+SockOpen(s, t) == /\ kind = "tunnel" /\ s \notin socks /\ Tr(t) > 0 /\ t \in tasks /\ Act
+                  /\ socks' = socks \cup {s}
+                  /\ trying' = SetTr(t, Tr(t) - 1)
+                  /\ unstored' = IF StoreAtOpen THEN unstored ELSE unstored \cup {<<s, t>>}
+                  /\ Keep1 /\ UNCHANGED <<tmShut, tasks, dying, rcShut, caches, rmPending>>
+                  /\ UNCHANGED BootVars /\ UNCHANGED <<xtasks, tfailed>>
+SockFail(t) == /\ Tr(t) > 0
+               /\ trying' = SetTr(t, Tr(t) - 1)
+               /\ tfailed' = IF StoreAtOpen \/ t \in dying THEN tfailed ELSE tfailed \cup {t}
+               /\ Keep1 /\ UNCHANGED <<tmShut, tasks, dying, rcShut, caches, socks, rmPending, lateAct>>
+               /\ UNCHANGED BootVars /\ UNCHANGED <<xtasks, unstored>>
 SockClose(s) == /\ s \in socks
                 /\ socks' = socks \ {s} /\ rmPending' = rmPending \ {s}
+                /\ unstored' = {p \in unstored : p[1] # s}
                 /\ Keep1 /\ UNCHANGED <<tmShut, tasks, dying, rcShut, caches, lateAct>>
-                /\ UNCHANGED BootVars
+                /\ UNCHANGED BootVars /\ UNCHANGED <<xtasks, trying, tfailed>>
 (* a datagram from the outside world arrives on an open exit socket and is tunnelled back *)
 SockIn(s) == /\ s \in socks /\ Act
              /\ Keep1 /\ UNCHANGED <<tmShut, tasks, dying, rcShut, caches, socks, rmPending>>
-             /\ UNCHANGED BootVars
+             /\ UNCHANGED BootVars /\ UNCHANGED OpenVars
 (* remove_exit_socket while the overlay is in use (DESTROY of the circuit's owner, do_remove: idle / old / traffic  *)
 (* limit): a task that sleeps remove_tunnel_delay seconds and then closes the socket (= SockClose). Requested     *)
 (* again for a socket whose removal is already pending it changes nothing.                                        *)
 RemoveSched(s) == /\ kind = "tunnel" /\ phase # "unloaded" /\ s \in socks
                   /\ rmPending' = rmPending \cup {s}
                   /\ Keep1 /\ UNCHANGED <<tmShut, tasks, dying, rcShut, caches, socks, lateAct>>
-                  /\ UNCHANGED BootVars
+                  /\ UNCHANGED BootVars /\ UNCHANGED OpenVars
 
 ---------------------------------------------------------------------------
 (* bootstrappers: Community.bootstrap registers a task per bootstrapper (_bootstrap), which starts              *)
@@ -169,48 +225,58 @@ BootInit(b, t) == /\ phase # "unloaded" /\ ~tmShut /\ t \in tasks /\ b \notin in
                   /\ initing' = initing \cup {b}
                   /\ held' = IF InitAwaited THEN held \cup {<<b, t>>} ELSE held
                   /\ Keep1 /\ UNCHANGED <<tmShut, tasks, dying, rcShut, caches, socks, rmPending, lateAct, bdying, bsocks>>
+                  /\ UNCHANGED OpenVars
 (* the initialisation opens its socket (b = 0: a socket opened by the overlay's bootstrapper outside an          *)
 (* initialisation, which it may do while the overlay is not unloaded)                                            *)
 BootOpen(b, s) == /\ b \in initing \/ (b = 0 /\ phase # "unloaded")
                   /\ s \notin bsocks /\ Act
                   /\ bsocks' = bsocks \cup {s}
                   /\ Keep1 /\ UNCHANGED <<tmShut, tasks, dying, rcShut, caches, socks, rmPending, initing, bdying, held>>
+                  /\ UNCHANGED OpenVars
 (* the initialisation ends: returned, failed, or took the CancelledError *)
 BootEnd(b) == /\ b \in initing \cup bdying
               /\ initing' = initing \ {b} /\ bdying' = bdying \ {b}
               /\ held' = {p \in held : p[1] # b}
               /\ Keep1 /\ UNCHANGED <<tmShut, tasks, dying, rcShut, caches, socks, rmPending, lateAct, bsocks>>
+              /\ UNCHANGED OpenVars
 BootClose(s) == /\ s \in bsocks
                 /\ bsocks' = bsocks \ {s}
                 /\ Keep1 /\ UNCHANGED <<tmShut, tasks, dying, rcShut, caches, socks, rmPending, lateAct, initing, bdying, held>>
+                /\ UNCHANGED OpenVars
 (* a datagram arrives on an open bootstrap socket: the overlay walks to its source / handles the packet *)
 BootIn(s) == /\ s \in bsocks /\ Act
              /\ Keep1 /\ UNCHANGED <<tmShut, tasks, dying, rcShut, caches, socks, rmPending>>
-             /\ UNCHANGED BootVars
+             /\ UNCHANGED BootVars /\ UNCHANGED OpenVars
 
 ---------------------------------------------------------------------------
 (* unload(); the sub-steps may come in any order, U_Done needs all of them *)
 UnloadStart == /\ phase = "loaded" /\ phase' = "unloading"
                /\ UNCHANGED <<wiring, kind, glob, pfx, pl, link, tmShut, tasks, dying, rcShut, caches, socks,
                               rmPending, sub, lateAct>>
-               /\ UNCHANGED BootVars
+               /\ UNCHANGED BootVars /\ UNCHANGED OpenVars
 (* TunnelCommunity.unload: remove_circuit / remove_relay / remove_exit_socket(remove_now=True).               *)
 (* Repaired: the overlay stops listening first (no new exit socket can appear), then closes what exists and   *)
-(* waits for that - whether or not a removal of the socket was scheduled before. Pinned: done first, by       *)
-(* delayed tasks which the task manager shutdown cancels. ~UnloadRemovesPending: sockets with a scheduled     *)
-(* removal are left to that (sleeping, cancellable) task.                                                      *)
+(* waits for that - whether or not a removal of the socket was scheduled before: every exit socket's close()  *)
+(* shuts its task manager down (an opening job in flight is cancelled: the attempts it waits for give no      *)
+(* socket any more) and closes the sockets it has on record. Pinned: done first, by delayed tasks which the   *)
+(* task manager shutdown cancels. ~UnloadRemovesPending: sockets with a scheduled removal are left to that    *)
+(* (sleeping, cancellable) task.                                                                               *)
 U_Tunnels == /\ phase = "unloading" /\ kind = "tunnel" /\ "tunnels" \notin sub
              /\ RemovalAwaited => "listener" \in sub
              /\ sub' = sub \cup {"tunnels"}
-             /\ IF ~RemovalAwaited THEN socks' = socks /\ rmPending' = socks      \* sleeping remove_* tasks own the closing
-                ELSE IF UnloadRemovesPending THEN socks' = {} /\ rmPending' = {}
-                ELSE socks' = socks \cap rmPending /\ rmPending' = rmPending
-             /\ UNCHANGED <<wiring, kind, glob, pfx, pl, link, phase, tmShut, tasks, dying, rcShut, caches, lateAct>>
-             /\ UNCHANGED BootVars
+             /\ IF ~RemovalAwaited
+                THEN /\ socks' = socks /\ rmPending' = socks      \* sleeping remove_* tasks own the closing
+                     /\ UNCHANGED <<tasks, dying, unstored>>
+                ELSE /\ socks' = socks \ (IF UnloadRemovesPending THEN Recorded ELSE Recorded \ rmPending)
+                     /\ rmPending' = IF UnloadRemovesPending THEN {} ELSE rmPending
+                     /\ tasks' = tasks \ xtasks /\ dying' = dying \cup (tasks \cap xtasks)
+                     /\ UNCHANGED unstored
+             /\ UNCHANGED <<wiring, kind, glob, pfx, pl, link, phase, tmShut, rcShut, caches, lateAct>>
+             /\ UNCHANGED BootVars /\ UNCHANGED <<xtasks, trying, tfailed>>
 U_Cache == /\ phase = "unloading" /\ kind # "basic"
            /\ sub' = sub \cup {"cache"} /\ rcShut' = TRUE /\ caches' = {}
            /\ UNCHANGED <<wiring, kind, glob, pfx, pl, link, phase, tmShut, tasks, dying, socks, rmPending, lateAct>>
-           /\ UNCHANGED BootVars
+           /\ UNCHANGED BootVars /\ UNCHANGED OpenVars
 U_Listener == /\ phase = "unloading"
               /\ sub' = sub \cup {"listener"}
               /\ LET t1 == RemVia(wiring, Tables, "ov")
@@ -218,7 +284,7 @@ U_Listener == /\ phase = "unloading"
                  IN glob' = t2.glob /\ pfx' = t2.pfx /\ pl' = t2.pl
               /\ link' = IF CryptoListenerRemoved THEN FALSE ELSE link
               /\ UNCHANGED <<wiring, kind, phase, tmShut, tasks, dying, rcShut, caches, socks, rmPending, lateAct>>
-              /\ UNCHANGED BootVars
+              /\ UNCHANGED BootVars /\ UNCHANGED OpenVars
 (* shutdown_task_manager: flag, cancel everything; the cancelled tasks (incl. pending removals) die, and with *)
 (* them the initialisations they await                                                                        *)
 U_Tasks == /\ phase = "unloading"
@@ -227,6 +293,7 @@ U_Tasks == /\ phase = "unloading"
            /\ LET killed == {b \in initing : \E t \in tasks \cup dying : <<b, t>> \in held}
               IN initing' = initing \ killed /\ bdying' = bdying \cup killed
            /\ UNCHANGED <<wiring, kind, glob, pfx, pl, link, phase, rcShut, caches, socks, lateAct, held, bsocks>>
+           /\ UNCHANGED OpenVars
 (* Community.unload: bootstrapper.unload() closes the sockets of the initialised bootstrappers. In the code this, *)
 (* the listener removal and the cancellation of the tasks happen without an await in between (one atomic step);  *)
 (* the specification serialises that step as cancel-then-close.                                                   *)
@@ -234,13 +301,14 @@ U_Boot == /\ phase = "unloading" /\ "tasks" \in sub
           /\ sub' = sub \cup {"boot"} /\ bsocks' = {}
           /\ UNCHANGED <<wiring, kind, glob, pfx, pl, link, phase, tmShut, tasks, dying, rcShut, caches, socks, rmPending,
                          lateAct, initing, bdying, held>>
+          /\ UNCHANGED OpenVars
 Needed == {"listener", "tasks", "boot"} \cup (IF kind # "basic" THEN {"cache"} ELSE {}) \cup
           (IF kind = "tunnel" THEN {"tunnels"} ELSE {})
 U_Done == /\ phase = "unloading" /\ Needed \subseteq sub /\ dying = {} /\ tasks = {}
           /\ phase' = "unloaded"
           /\ UNCHANGED <<wiring, kind, glob, pfx, pl, link, tmShut, tasks, dying, rcShut, caches, socks, rmPending,
                          sub, lateAct>>
-          /\ UNCHANGED BootVars
+          /\ UNCHANGED BootVars /\ UNCHANGED OpenVars
 
 Next == \/ Handler \/ Send
         \/ \E t \in TaskIds, own \in Owners, ok \in BOOLEAN : Register(t, own, ok)
@@ -249,7 +317,9 @@ Next == \/ Handler \/ Send
         \/ \E c \in CacheIds, ok \in BOOLEAN : CacheAdd(c, ok)
         \/ \E c \in CacheIds : CacheTimeout(c)
         \/ \E c \in CacheIds : CachePop(c)
-        \/ \E s \in SockIds : SockOpen(s)
+        \/ \E t \in TaskIds : SockTry(t)
+        \/ \E s \in SockIds, t \in TaskIds : SockOpen(s, t)
+        \/ \E t \in TaskIds : SockFail(t)
         \/ \E s \in SockIds : SockClose(s)
         \/ \E s \in SockIds : SockIn(s)
         \/ \E s \in SockIds : RemoveSched(s)
@@ -268,18 +338,27 @@ TypeOK == /\ phase \in {"loaded", "unloading", "unloaded"} /\ glob \subseteq {"o
           /\ tasks \cap dying = {} /\ rmPending \subseteq SockIds
           /\ initing \subseteq BootIds /\ bdying \subseteq BootIds /\ bsocks \subseteq BootIds /\ initing \cap bdying = {}
           /\ held \subseteq BootIds \X TaskIds
+          /\ xtasks \subseteq tasks \cup dying /\ tfailed \subseteq tasks \cup dying
+          /\ \A p \in trying : p[1] \in tasks \cup dying /\ p[2] \in 1..MaxTry
+          /\ \A p, q \in trying : p[1] = q[1] => p = q
+          /\ \A p \in unstored : p[1] \in socks /\ p[2] \in tasks \cup dying \cup {0}
 
 (* a loaded overlay does receive its datagrams (otherwise the model would be trivially silent) *)
 LoadedReachable == phase = "loaded" => Reach
 
-SilentAfterUnload == phase = "unloaded" => (~Alive /\ socks = {} /\ tmShut /\ (kind # "basic" => rcShut))
+SilentAfterUnload == phase = "unloaded" => (~Alive /\ socks = {} /\ tmShut /\ (kind # "basic" => rcShut) /\ trying = {})
 
 NoLateActivity == ~lateAct
 
 (* accepts no new task *)
 NoNewTaskAfterUnload == [][phase = "unloaded" => (tasks' = tasks /\ caches' = caches /\ socks' = socks /\ bsocks' = bsocks
-                                                  /\ initing' = initing)]_vars
+                                                  /\ initing' = initing /\ trying' = trying)]_vars
 
 (* an initialisation in flight is awaited by a task of the overlay that is still there (repaired behaviour) *)
 JobsHeld == InitAwaited => \A b \in initing : \E t \in tasks \cup dying : <<b, t>> \in held
+
+(* socket ownership: every open outside socket is on record with its exit socket, or the job that opened it is    *)
+(* still running (and will put it on record); no failure of the environment and no cancellation leaves a socket  *)
+(* that nobody will close                                                                                         *)
+NoOrphanSocket == \A p \in unstored : p[2] \in tasks
 =============================================================================
